@@ -288,6 +288,18 @@ fn step<'a>(
                     block: &f.block,
                 }))
             }
+            "macro_rules" => {
+                // `//@item file :: macro_rules name`: darling's own macro_rules definition, pasted verbatim (rule R8b) so that invocations in
+                // EXPRESSION position inside extracted bodies expand with the working tree's transcriber
+                for it in &items {
+                    if let syn::Item::Macro(m) = it {
+                        if m.mac.path.is_ident("macro_rules") && m.ident.as_ref().map(|i| i == rest).unwrap_or(false) {
+                            return Ok(Err(Found::Item(it)));
+                        }
+                    }
+                }
+                Err(format!("{} not found", sel))
+            }
             "struct" | "enum" | "type" | "const" => {
                 for it in &items {
                     let ok = match it {
@@ -1605,6 +1617,12 @@ fn handle_item(src: &str, it: &syn::Item, features: &[String]) -> Result<Value, 
                 syn::Visibility::Inherited => edits.insert(br(&s.const_token).start, "pub "),
                 v => edits.replace(br(v), "pub"),
             }
+        }
+        syn::Item::Macro(m) => {
+            for a in &m.attrs {
+                edits.replace(br(a), "");
+            }
+            log.push("R8b:macro_rules definition pasted verbatim".into());
         }
         _ => return Err("unsupported item kind".into()),
     }
